@@ -54,17 +54,17 @@ use crate::{
     rng::{h64, Rng},
 };
 
-struct SNode {
-    ep: Endpoint,
-    docs: Docs,
-    blobs: iroh_blobs::api::Store,
-    router: Router,
-    author: AuthorId,
-    addr: EndpointAddr,
-    id: PublicKey,
+pub struct SNode {
+    pub ep: Endpoint,
+    pub docs: Docs,
+    pub blobs: iroh_blobs::api::Store,
+    pub router: Router,
+    pub author: AuthorId,
+    pub addr: EndpointAddr,
+    pub id: PublicKey,
 }
 
-async fn make_node(seed: u8) -> anyhow::Result<SNode> {
+pub async fn make_node(seed: u8) -> anyhow::Result<SNode> {
     let sk = SecretKey::from_bytes(&[seed; 32]);
     let ep = Endpoint::builder(presets::Minimal).secret_key(sk).relay_mode(RelayMode::Disabled).bind().await?;
     let gossip = Gossip::builder().spawn(ep.clone());
